@@ -38,6 +38,7 @@ pub mod scen_batch;
 pub mod scen_codec;
 pub mod scen_core;
 pub mod scen_ctors;
+pub mod scen_wire;
 pub mod scen_zeroize;
 pub mod scen_threads;
 pub mod scen_nonce;
@@ -60,6 +61,10 @@ fn main() {
     if args.len() < 2 {
         eprintln!("usage: bpp_harness <scenario> [quick|thorough] [seed]");
         std::process::exit(2);
+    }
+    if args[1] == "C19-record" {
+        scen_wire::record();
+        return;
     }
     if args[1] == "C18-child" {
         scen_threads::child(args.get(2).and_then(|s| s.parse().ok()).unwrap_or(16));
@@ -96,6 +101,10 @@ fn main() {
         },
         "C18" => scen_threads::c18(&opts, &mut out),
         "C20" => scen_zeroize::c20(&opts, &mut out),
+        "C19" => {
+            let v = std::fs::read_to_string(args.get(4).map(|s| s.as_str()).unwrap_or("/verif/vectors/v040.txt")).unwrap_or_default();
+            scen_wire::c19(&opts, &mut out, &v)
+        },
         "C07" => scen_recover::c07(&opts, &mut out),
         "C08" => scen_recover::c08(&opts, &mut out),
         "C09" => scen_recover::c09(&opts, &mut out),
